@@ -557,6 +557,42 @@ pub fn spaces(tier: Tier) -> Vec<Space> {
             cbc_decrypt_vs_reference(case, acc, m, &k, &ivb, &ct, "stray-bytes-appended", json!({"mode": m.name(), "stray_bytes": extra}));
         }
     }));
+    // two padding bytes broken at once, by the same XOR delta or by +d / -d (a padding check that folds the differences
+    // accepts these): every pad value 3..=16 x every pair of positions inside the run x every delta
+    {
+        let mut table: Vec<(usize, usize, usize)> = vec![];
+        for p in 3..=16usize {
+            for j1 in 1..p {
+                for j2 in (j1 + 1)..p {
+                    table.push((p, j1, j2));
+                }
+            }
+        }
+        let nt = table.len() as u64;
+        v.push(Space::new("cbc-padding-two-broken-bytes", 2 * nt * 255 * 2, move |case, acc| {
+            let c = coords(case.idx, &[2, nt, 255, 2]);
+            let m = MODES[c[0] as usize];
+            let (p, j1, j2) = table[c[1] as usize];
+            let d = (c[2] + 1) as u8;
+            let k = key(3, m.key_len());
+            let ivb = iv(1, 32);
+            let mut fb = [0xaau8; 16];
+            for i in 0..p {
+                fb[15 - i] = p as u8;
+            }
+            if c[3] == 0 {
+                fb[15 - j1] ^= d;
+                fb[15 - j2] ^= d;
+            } else {
+                fb[15 - j1] = fb[15 - j1].wrapping_add(d);
+                fb[15 - j2] = fb[15 - j2].wrapping_sub(d);
+            }
+            let mut plain = pattern(2, 16);
+            plain.extend_from_slice(&fb);
+            let ct = ra::cbc_encrypt_nopad(&k, &ivb, &plain);
+            cbc_decrypt_vs_reference(case, acc, m, &k, &ivb, &ct, "two-padding-bytes-broken", json!({"mode": m.name(), "key": hx(&k), "iv": hx(&ivb), "padded_plaintext": hx(&plain), "ciphertext": hx(&ct)}));
+        }));
+    }
     let blocks = final_blocks();
     v.push(Space::new("cbc-padding", 2 * nk * ni_rej * 3 * blocks.len() as u64, move |case, acc| eval_padding(case, acc, nk, ni_rej, &blocks)));
     v
